@@ -39,7 +39,9 @@ EXPLANATION = (
     "collections, odd strings, compared with the model's own dump (tree equality with the real file) and loaders; (2) single-point "
     "structural corruptions of the dumped file at every nesting level through both loaders, the model being given the parsed tree; "
     "(3) ValidateMetablock and the validate* hooks on valid metadata and single-point invalidations of every format rule. The oracle is "
-    "the ground truth of the generator (which corruption was applied where), independent of the model.")
+    "the ground truth of the generator (which corruption was applied where), independent of the model. "
+    "Additional failing-input search (not part of the proof): Go native coverage-guided fuzzing of LoadMetadata / Metablock.Load / Dump / "
+    "SetPayload / ValidateMetablock against by-hand Go oracles (harness/c12/fuzz_test.go).")
 
 IMPORTS = ['model.Loader', 'model.ValidateInst']
 
@@ -124,7 +126,25 @@ def correspondence(ctx):
                  "(observable = length and SHA-256 of the canonical rendering). padded: a valid document, blanks, then junk starting around "
                  "64 KiB, 1 MiB, 2 MiB, 4 MiB: must be refused. "
                  "non-trivial = every case (each has a non-empty document or metadata); distinct = distinct input JSON")
+    _fuzz(ctx, corr)
     return corr
+
+
+def _fuzz(ctx, corr):
+    """coverage-guided differential fuzzing of the loaders / writers / validator against the by-hand Go oracles of
+    harness/c12/fuzz_test.go: an additional failing-input search, never part of the proof"""
+    secs = 12 if ctx.tier == 'quick' else 180
+    f = ctx.go_fuzz('c12', 'FuzzLoad', secs)
+    corr.extra['fuzz_seconds'] = secs
+    corr.extra['fuzz_oracle'] = ('harness/c12/fuzz_test.go: literal field table (required wrapper members present and non-null, known _type, '
+                                 'required top-level fields, no unknown member at any struct level, JSON kinds), both loaders agree, Dump onto the '
+                                 'path read from and re-wrapping in both wrappers load back to the same content, ValidateMetablock = by-hand format '
+                                 'rules; domain: <= 8 KiB, no duplicate or case-variant member names, no long number literals, no fractional seconds')
+    if f:
+        inp = {'entry': 'fuzz', 'target': 'FuzzLoad', 'go_fuzz_corpus_file': f['corpus_file']}
+        corr.violations.append({'klass': 'fuzz-load', 'case': {'id': 'fuzz', 'klass': 'fuzz-load', 'input': inp},
+                                'impl': f['message'], 'expected': 'the strictness / round-trip / format-rule oracles of harness/c12/fuzz_test.go',
+                                'what': 'coverage-guided differential fuzzing found a metadata file on which the library differs from the oracle'})
 
 
 def search(ctx, why):
@@ -144,6 +164,13 @@ def search(ctx, why):
 
 
 def replay(ctx, case):
+    inp = (case.get('input') or {}) if isinstance(case, dict) else {}
+    if isinstance(inp, dict) and inp.get('entry') == 'fuzz':
+        print('failing input of the fuzz target %s (Go corpus file format):\n%s' % (inp.get('target'), inp.get('go_fuzz_corpus_file')))
+        print('difference reported:\n%s' % case.get('impl'))
+        print('re-run: save it as harness/c12/testdata/fuzz/%s/replay and run `go test -tags verif -run %s/replay ./c12` in /verif/harness'
+              % (inp.get('target'), inp.get('target')))
+        return
     binp = ctx.go_build('c12')
     p = os.path.join(ctx.dir, 'replay_case.json')
     json.dump(case, open(p, 'w'))
